@@ -11,7 +11,10 @@ CONSTANTS
   Routes = {"global", "api", "ctor", "setter"}
   Extras = {"none", "stream", "deactive"}
   CfgReads = {"both"}
+  CLists <- MCLists
+  PathReads = {"sum"}
 INVARIANT HoldTwin
 INVARIANT OnNodeSchemeFree
+INVARIANT HoldOrder
 CONSTRAINT EmitCfg
 CHECK_DEADLOCK FALSE
